@@ -7,6 +7,9 @@ Node := ["site", dist, [sample_shape]]       dist in {"normal","uniform"}; stand
       | ["vmap", n, Node]                     modular_vmap(axis_size=n)
       | ["cond", Node, Node]                  lax.cond on (previous draw > threshold); both branches sample
       | ["gen", Node]                         a @gen function whose body is Node (sites addressed), simulated
+      | ["remat", Node, "checkpoint"|"custom_jvp"]   (C06 only, opt-in) Node inside jax.checkpoint / a custom_jvp function,
+                                              after parameterised deterministic equations; seed may refuse such programs
+                                              with the dedicated error - if it accepts them the result must be pure
 build(node) -> f(scale) returning a flat dict {position: array}; every site value is scale * draw (scale is an argument,
 so that 'same program, other argument shape' exists).
 """
@@ -43,6 +46,8 @@ def kinds(node, enclosing=(), acc=None):
         kinds(node[2], enclosing + ("cond",), acc)
     elif k == "gen":
         kinds(node[1], enclosing + ("gen",), acc)
+    elif k == "remat":
+        kinds(node[1], enclosing + ("remat",), acc)
     return acc
 
 
@@ -130,6 +135,22 @@ def build(node):
                     out[path + f"/cond{which}" + p] = v
                 res = res + s
             return res
+        if k == "remat":
+            def inner(l):
+                o = {}
+                pre = jnp.sum(jnp.stack([l, l]) ** 2).astype(jnp.float32) * 0.0  # parameterised equations before the sites
+                s = run(nd[1], scale, o, "", pre)
+                return s, o
+
+            if nd[2] == "checkpoint":
+                s, o = jax.checkpoint(inner)(last)
+            else:
+                cf = jax.custom_jvp(inner)
+                cf.defjvp(lambda p, t: (inner(p[0]), jax.tree_util.tree_map(jnp.zeros_like, inner(p[0]))))
+                s, o = cf(last)
+            for p, v in o.items():
+                out[path + "/remat" + p] = v
+            return s
         if k == "gen":
             counter[0] += 1
             sub = nd[1]
